@@ -1184,6 +1184,16 @@ func (x *Exec) effectsOfCall(fr *Frame, ci ssa.CallInstruction, eff *loopEffects
 				return
 			}
 		}
+		if x.topFC != nil {
+			if pn := paramNameOf(c.Value); pn != "" {
+				for _, pat := range x.topFC.Abstract {
+					fs := strings.Fields(pat)
+					if len(fs) >= 3 && fs[0] == "call" && fs[2] == "pure" && fs[1] == "param."+pn {
+						return
+					}
+				}
+			}
+		}
 		// an unknown function value: no contract, hence no effect on ghost fields
 		eff.why = append(eff.why, "exec.go:932")
 		eff.all = true
